@@ -1213,6 +1213,9 @@ class _NestedFuncWrapper:
 
     def __call__(self, *args: Any, **kwds: Any) -> Any:
         result_dict = self.func(*args, **kwds)
+        for key, value in list(result_dict.items()):
+            if isinstance(key, tuple):  # a multi-output function that was requested as a whole
+                result_dict.update({k: v for k, v in zip(key, value) if k not in result_dict})
         if isinstance(self.output_name, str):
             return result_dict[self.output_name]
         return tuple(result_dict[name] for name in self.output_name)
